@@ -3,8 +3,9 @@
 The wrapper generator is interpreted on its CFG.  *Atoms* are the ``yield from`` statements of the wrapped
 plan (PLAN), the except plan (EXCEPT), the else plan (ELSE), the final plan (FINAL) and ``pause()`` (PAUSE).
 How the wrapped plan ends is injected at the PLAN atom: it returns, or raises GeneratorExit (the wrapper was
-closed), an Exception, or another BaseException (modelled by KeyboardInterrupt).  The other atoms complete
-normally.  Abstract state: (outcome of PLAN, cleanup flag, how often each atom ran, boolean parameters)."""
+closed), an Exception, or another BaseException (modelled by KeyboardInterrupt).  The EXCEPT and ELSE atoms
+complete normally or let an Exception escape (thrown in by the RunEngine, or raised by the handler plan);
+FINAL and PAUSE complete normally.  Abstract state: (outcome of PLAN, cleanup flag, how often each atom ran, boolean parameters)."""
 
 from __future__ import annotations
 
@@ -15,13 +16,15 @@ from . import astutil as A
 from . import cfg as C
 
 OUTCOMES = ("GeneratorExit", "Exception", "KeyboardInterrupt")
-S = namedtuple("S", "outcome cleanup final exc els pause params")  # params: frozenset of (name, bool)
+# hexc: an Exception escaped the except plan / else plan (thrown in by the RunEngine or raised by that plan)
+S = namedtuple("S", "outcome cleanup final exc els pause params hexc", defaults=(False,))  # params: frozenset of (name, bool)
 
 
 class WrapPolicy(C.Policy):
-    def __init__(self, hier, plan_name):
+    def __init__(self, hier, plan_name, handler_names=()):
         super().__init__(hier, calls_raise=False, await_kinds=(), yield_kinds=())
         self.plan_name = plan_name
+        self.handler_names = tuple(n for n in handler_names if n)
 
     def raises(self, node):
         out = set()
@@ -30,6 +33,9 @@ class WrapPolicy(C.Policy):
         for n in A.walk_local(node):
             if isinstance(n, ast.YieldFrom) and isinstance(n.value, ast.Name) and n.value.id == self.plan_name:
                 out.update(OUTCOMES)
+            # the except / else plans are plans too: the RunEngine can throw into them (stop / abort) and they can fail
+            if isinstance(n, ast.YieldFrom) and isinstance(n.value, ast.Call) and (A.call_name(n.value) or "") in self.handler_names:
+                out.add("Exception")
         return out
 
 
@@ -62,7 +68,7 @@ def atom_of(stmt, roles) -> str | None:
 class WrapperModel:
     def __init__(self, repo, hier, func, roles, bool_params):
         self.func, self.roles, self.bool_params = func, roles, bool_params
-        self.g = C.build(func, WrapPolicy(hier, roles["plan"]))
+        self.g = C.build(func, WrapPolicy(hier, roles["plan"], (roles.get("except"), roles.get("else"))))
         self.atoms = {}
         for n in self.g.nodes:
             if n.kind in ("stmt", "return") and n.stmt is not None:
@@ -105,6 +111,9 @@ class WrapperModel:
             if is_exc:
                 return [st._replace(outcome=label[1])]
             return [st._replace(outcome="returned")]
+        if is_exc and a in ("EXCEPT", "ELSE"):
+            # the handler plan started and an Exception left it
+            return [(st._replace(exc=min(st.exc + 1, 2)) if a == "EXCEPT" else st._replace(els=min(st.els + 1, 2)))._replace(hexc=True)]
         if is_exc:
             return [st]
         if a == "FINAL":
